@@ -240,19 +240,23 @@ class MetadorNode(wrapt.ObjectProxy):
 
     @property
     def parent(self) -> MetadorGroup:
+        kwargs = self._child_node_kwargs()
         if self.acl[NodeAcl.local_only]:
             # allow child nodes of local-only nodes to go up to the marked parent
             # (or it is None, if this is the local root)
-            if lp := self._self_local_parent:
-                return lp
-            else:
+            lp = self._self_local_parent
+            if lp is None:
                 # raise exception (illegal non-local access)
                 self._guard_acl(NodeAcl.local_only, "parent")
+            # the parent node is wrapped anew, so that restrictions added to this
+            # node later are kept; it can go up just as far as the marked parent can
+            at_marked = self.__wrapped__.parent.name == lp.name
+            kwargs["local_parent"] = lp._self_local_parent if at_marked else lp
 
         return MetadorGroup(
             self._self_container,
             self.__wrapped__.parent,
-            **self._child_node_kwargs(),
+            **kwargs,
         )
 
     @property
